@@ -216,6 +216,30 @@ def r15_4(ctx):
     ctx.ob('R15.4', 'SynchronizedBase.__reduce__:object-and-lock-travel-together', ok, sb, None,
            'synchronized, (self._obj, self._lock) under assert_spawning')
     r12_1(ctx, rule='R15.4', modules=('sharedctypes', 'heap'), floor=3)
+    # sibling agreement: every wrapper built by synchronized() gets the caller's object, lock and context
+    sy = m.func('sharedctypes:synchronized')
+    P = sy.positional_params()
+    wrappers = [c for (n, c) in q.calls(sy, None)
+                if sy.callee(c) in ('Synchronized', 'SynchronizedArray', 'SynchronizedString', 'scls')]
+    q.need(len(wrappers) >= 4, 'synchronized() builds %d wrappers' % len(wrappers))
+    for c in wrappers:
+        args = [ast.unparse(a) for a in c.args] + ['%s=%s' % (k.arg, ast.unparse(k.value)) for k in c.keywords]
+        ok = args[:3] == [P[0], P[1], P[2]] or (args[:2] == [P[0], P[1]] and ('ctx=' + P[2]) in args)
+        ctx.ob('R15.4', 'synchronized:%s-gets-object-lock-context' % sy.callee(c), ok, sy, c,
+               '%s(%s): the lock handed in (or travelling with a pickled wrapper) must be the one the wrapper uses, '
+               'for every element type alike' % (sy.callee(c), ', '.join(args)))
+    # a rebuilt object must be picklable by reference again (second hop): the reducer is registered on rebuild
+    rb = m.func('sharedctypes:rebuild_ctype')
+    reg = [(n, c) for (n, c) in q.calls(rb, 'ForkingPickler.register')]
+    ok = bool(reg) and all([ast.unparse(a) for a in c.args] == [rb.positional_params()[0], 'reduce_ctype'] for (n, c) in reg)
+    if ok:
+        rets = [n for n in rb.cfg.where(lambda n: isinstance(n.ast, ast.Return))]
+        ok = all(rb.cfg.dominated_by(r, [n for (n, c) in reg], completed=True)[0] for r in rets)
+        tdefs = [dn for (dn, t, v) in q.assigns(rb, rb.positional_params()[0])]
+        ok = ok and all(d.id not in rb.cfg.reach([n.id for (n, c) in reg], skip_labels=('x',)) for d in tdefs)
+    ctx.ob('R15.4', 'rebuild_ctype:registers-by-reference-pickling-for-the-final-type', ok, rb, reg[0][1] if reg else None,
+           'ForkingPickler.register(type_, reduce_ctype) in rebuild_ctype (after the length was applied): an object '
+           'received from another process pickles by reference again instead of as a private copy')
 
 
 def run(ctx):
